@@ -8,8 +8,9 @@
 # recheck is not disturbed by edits made meanwhile.
 set -u
 PATCH="$1"; shift
-ALT=/tmp/verif-alt
-REPO_ALT=/tmp/repo-alt
+# ALT_TAG=<suffix> gives a second, independent pair of scratch directories
+ALT=/tmp/verif-alt${ALT_TAG:-}
+REPO_ALT=/tmp/repo-alt${ALT_TAG:-}
 mkdir -p "$ALT"
 # the scratch repository: a detached worktree at /repo's HEAD, reset for every call
 if [ ! -d "$REPO_ALT/.git" ] && [ ! -f "$REPO_ALT/.git" ]; then
@@ -25,7 +26,7 @@ rsync -a --delete --exclude target --exclude replays --exclude evidence --exclud
 sed -i "s#path = \"/repo\"#path = \"$REPO_ALT\"#" "$ALT/sim/Cargo.toml"
 sed -i "s#cd /repo #cd $REPO_ALT #" "$ALT/check"
 sed -i "s#\"/repo/{}\"#\"$REPO_ALT/{}\"#" "$ALT/sim/src/engine_d.rs"
-sed -i "s#\"/repo/\"#\"/repo-alt/\"#" "$ALT/sim/src/hashseed.rs"
+sed -i "s#\"/repo/\"#\"/repo-alt${ALT_TAG:-}/\"#" "$ALT/sim/src/hashseed.rs"
 mkdir -p "$ALT/evidence"
 for C in "$@"; do
     ( cd "$ALT" && ./check "$C" quick ) >"$ALT/last-$C.out" 2>&1; rc=$?
